@@ -1,27 +1,27 @@
-\* two indexes, AnySuccessful
+\* the Job carries another finalizer; user deletes it at any time, the other finalizer is released afterwards
 SPECIFICATION Spec
 CONSTANTS
- N = 2
+ N = 1
  MaxAtt = 1
  Delay = 1
- Strategy = "AnySuccessful"
+ Strategy = "AllSuccessful"
  PT = 2
  FD = 2
  TTL = 2
  Forbid = FALSE
  Foreign = FALSE
- MaxTime = 3
+ MaxTime = 4
  MaxEvq = 2
  MaxFaults = 0
  MaxCrash = 0
  Fresh = TRUE
  KillDelays = {}
  KillEdits = {}
- UserDeletes = FALSE
+ UserDeletes = TRUE
  ExtDeletes = FALSE
  NodeDowns = FALSE
  Rejects = FALSE
- Holds = FALSE
-INVARIANTS TypeOK C08_OneLive C09_NotLost C09_NoForeignAdopt C10_SuccOnly C10_FailOnly G_Kill G_Reaches G_Listed G_Deleted G_Foreign
+ Holds = TRUE
+INVARIANTS TypeOK C08_OneLive C09_NotLost C09_NoForeignAdopt C10_SuccOnly C10_FailOnly G_Kill G_Reaches G_Listed G_Deleted G_Foreign G_FinalizerHeld
 PROPERTIES C08_Order C08_Delay C08_Gates C09_Keep C10_NoLiveAtFinish C11_Monotone C12_DeleteJustified C12_ForceGate C12_KillSticky C13_Order C13_TTLNotEarly
 CHECK_DEADLOCK FALSE
